@@ -263,7 +263,7 @@ def run_c16(version, tier, seed, escalate, T):
 
 def main():
     mode, version, tier, seed, escalate, out = sys.argv[1:7]
-    common.lib_setup()
+    common.lib_setup(xs_check=True)
     warnings.simplefilter("ignore")
     T = B.tables()
     if mode == "c16":
